@@ -25,6 +25,11 @@ func MakeGenericType(genericTypeDefinition TypeDefinition, typeArguments []Type,
 	}
 
 	errorSink := validation.ErrorSink{}
+
+	// A definition can be referenced many times (directly and through other definitions):
+	// rewrite each referenced definition once
+	rewrittenDefinitions := make(map[TypeDefinition]Node)
+
 	rewritten := Rewrite(genericTypeDefinition, func(self *Rewriter, node Node) Node {
 		switch t := node.(type) {
 		case *DefinitionMeta:
@@ -54,7 +59,11 @@ func MakeGenericType(genericTypeDefinition TypeDefinition, typeArguments []Type,
 				errorSink.Add(validationError(t, "internal error: unable to substitute generic type parameter"))
 			}
 
-			rewrittenResolvedType := self.Rewrite(t.ResolvedDefinition)
+			rewrittenResolvedType, seen := rewrittenDefinitions[t.ResolvedDefinition]
+			if !seen {
+				rewrittenResolvedType = self.Rewrite(t.ResolvedDefinition)
+				rewrittenDefinitions[t.ResolvedDefinition] = rewrittenResolvedType
+			}
 			if rewrittenResolvedType == t.ResolvedDefinition {
 				return t
 			}
